@@ -181,7 +181,7 @@ def probe_overrides(out, n_assign=6):
     return HEAD + body + TAIL
 
 
-def default_override_expr(out):
+def default_override_expr(out, shift=1):
     ov = out.get("overrides")
     if not ov or not ov.get("fields"):
         return None
@@ -190,7 +190,7 @@ def default_override_expr(out):
         ty = f["ty"]
         optional = ty.startswith("Option<")
         inner = ty[7:-1] if optional else ty
-        inits.append("%s: %s" % (f["name"], override_value(inner, optional, i + 1)))
+        inits.append("%s: %s" % (f["name"], override_value(inner, optional, i + shift)))
     return "m::OverrideConstants { %s }" % ", ".join(inits)
 
 
@@ -202,6 +202,8 @@ def probe_entries(out, shim):
     ovx = default_override_expr(out)
     if ovx:
         body += "    let overrides = %s;\n        let omap = overrides.constants();\n" % ovx
+        # other values for a second call of every helper (a helper must pass on what THIS call is given)
+        body += "    let overrides2 = %s;\n        let omap2 = overrides2.constants();\n" % default_override_expr(out, shift=2)
     if shim:
         body += "    let device = wgpu::Device::new_for_test();\n    let module = m::create_shader_module(&device);\n    let _ = wgpu::take_log();\n"
     for c in out.get("entry_consts", []):
@@ -235,6 +237,9 @@ def probe_entries(out, shim):
             body += "    {\n        let e = m::%s(%s);\n" % (name, ", ".join(args))
             body += '        v.push(json!({"ev": "rt.vertex_entry", "fn": %s, "entry_point": e.entry_point, "buffers": bufs(&e.buffers), "steps_given": %s, "constants": cmap(&e.constants), "constants_eq_overrides": %s}));\n' % (
                 rust_str(name), json.dumps(steps), ("e.constants == omap" if ovx else "e.constants.is_empty()"))
+            if ovx and "&overrides" in args:
+                body += '        let e2 = m::%s(%s);\n        v.push(json!({"ev": "rt.entry_again", "fn": %s, "constants": cmap(&e2.constants), "constants_eq_overrides": e2.constants == omap2}));\n' % (
+                    name, ", ".join("&overrides2" if a == "&overrides" else a for a in args), rust_str(name))
             if shim:
                 body += ('        let s = m::vertex_state(&module, &e);\n'
                          '        v.push(json!({"ev": "rt.vertex_state", "fn": %s, "module_same": s.module.id == module.id, "entry_point": s.entry_point, "buffers_same": std::ptr::eq(s.buffers.as_ptr(), e.buffers.as_ptr()) && s.buffers.len() == e.buffers.len(), "constants_same": std::ptr::eq(s.compilation_options.constants, &e.constants), "zero_init": s.compilation_options.zero_initialize_workgroup_memory}));\n' % rust_str(name))
@@ -243,6 +248,9 @@ def probe_entries(out, shim):
             body += "    {\n        let e = m::%s(%s);\n" % (name, ", ".join(args))
             body += '        v.push(json!({"ev": "rt.fragment_entry", "fn": %s, "entry_point": e.entry_point, "targets": e.targets.len(), "constants": cmap(&e.constants), "constants_eq_overrides": %s}));\n' % (
                 rust_str(name), ("e.constants == omap" if ovx else "e.constants.is_empty()"))
+            if ovx and "&overrides" in args:
+                body += '        let e2 = m::%s(%s);\n        v.push(json!({"ev": "rt.entry_again", "fn": %s, "constants": cmap(&e2.constants), "constants_eq_overrides": e2.constants == omap2}));\n' % (
+                    name, ", ".join("&overrides2" if a == "&overrides" else a for a in args), rust_str(name))
             if shim:
                 body += ('        let s = m::fragment_state(&module, &e);\n'
                          '        v.push(json!({"ev": "rt.fragment_state", "fn": %s, "module_same": s.module.id == module.id, "entry_point": s.entry_point, "targets_same": std::ptr::eq(s.targets.as_ptr(), e.targets.as_ptr()) && s.targets.len() == e.targets.len(), "constants_same": std::ptr::eq(s.compilation_options.constants, &e.constants), "zero_init": s.compilation_options.zero_initialize_workgroup_memory}));\n' % rust_str(name))
